@@ -1,2 +1,130 @@
+//! C08: file loaders.
+
 use super::*;
-pub fn c08(_ctx: &Ctx, _subj: &dyn DynSubject, _ty: &Ty, _rep: &mut Report) {}
+use crate::faults::Placed;
+use crate::{Loader, Script};
+use vmodel::val::GenCfg;
+
+pub const SCRIPTS: [Script; 6] = [Script::Direct, Script::Boxed, Script::ThroughVec, Script::SendToThread, Script::SharedThreads, Script::DropElsewhere];
+
+pub fn c08(ctx: &Ctx, subj: &dyn DynSubject, ty: &Ty, rep: &mut Report) {
+    let strat = with_entropy(strategy_for(ctx, ty, GenCfg { max_len: 9, long: true }), 16);
+    let hook = cfg!(epserde_verif);
+    if !hook {
+        rep.notes.push("built without the epserde_verif hook: region checks skipped".into());
+    }
+    crate::runner::run_cases(ctx, subj, rep, strat, ctx.cases, &|case, log| {
+        let (v, ent) = split_entropy(case);
+        let mut ent = Ent::new(ent);
+        self_check(subj, v)?;
+        let (bytes, _) = ser_bytes(subj, v)?;
+        let enc = model_enc(ctx, subj, ty, v)?;
+        let path = ctx.tmp.join(format!("c08-{}-{:?}.bin", subj.index(), std::thread::current().id()).replace(['(', ')'], ""));
+        // store writes exactly the serialized bytes
+        match guard(|| subj.store(v, &path)) {
+            Ok(Ok(())) => {}
+            other => return Err(Fail::new("store-failed", format!("store failed: {:?}", other.map(|r| r.map_err(|e| format!("{:?}", e)))))),
+        }
+        let file = std::fs::read(&path).map_err(|e| Fail::new("harness:tmpfile", format!("cannot read back temp file: {}", e)))?;
+        if file.len() != bytes.len() || !same_masked(&enc, &file, &bytes) {
+            return Err(Fail::new("store-bytes", format!("store wrote {} bytes, serialize produces {} (or contents differ)", file.len(), bytes.len())));
+        }
+        log.classes.push(format!("len-mod64-{}", file.len() % 64));
+        // reference: ε-copy of the file bytes
+        let pl = Placed::new(&file, 4096, 0);
+        let reference = match guard(|| subj.eps(pl.bytes())) {
+            Ok(Ok(o)) => o,
+            other => return Err(Fail::new("eps-of-file", format!("deserialize_eps of the file bytes failed: {:?}", other.map(|r| r.map(|o| o.val.show()).map_err(|e| format!("{:?}", e)))))),
+        };
+        let nonempty_borrow = reference.borrows.iter().any(|b| b.len > 0);
+        log.nontrivial = nonempty_borrow;
+        log.sample = Some(sample_json(subj, v, Some(&file), json!({"file_len": file.len(), "borrows": reference.borrows.len()})));
+        // loaders x flags x scripts: all 8 flag sets for the mapping loaders, scripts rotated
+        let mut combos: Vec<(Loader, u32, Script)> = vec![(Loader::LoadFull, 0, Script::Direct), (Loader::LoadFull, 0, Script::Boxed)];
+        for (i, sc) in SCRIPTS.iter().enumerate() {
+            let _ = i;
+            combos.push((Loader::LoadMem, 0, *sc));
+        }
+        if cfg!(feature = "mmap") {
+            let rot = ent.pick(SCRIPTS.len());
+            for flags in 0..8u32 {
+                combos.push((Loader::LoadMmap, flags, SCRIPTS[(rot + flags as usize) % SCRIPTS.len()]));
+                combos.push((Loader::Mmap, flags, SCRIPTS[(rot + 3 + flags as usize) % SCRIPTS.len()]));
+            }
+        }
+        for (loader, flags, script) in combos {
+            log.extra_evals += 1;
+            log.classes.push(format!("{:?}", loader));
+            if nonempty_borrow {
+                log.extra_nontrivial.push(hash_sub(subj.name(), v, "c08", loader as u64 * 64 + flags as u64 * 8 + script as u64, 0));
+            }
+            let what = format!("{:?} flags={:03b} script={:?}", loader, flags, script);
+            let env = json!({"loader": format!("{:?}", loader), "flags": flags, "script": format!("{:?}", script)});
+            let out = match guard(|| subj.load(loader, &path, flags, script)) {
+                Err(p) => return Err(Fail::new(&format!("load-panic:{}", panic_class(&p)), format!("{}: panicked: {}", what, p)).env(env)),
+                Ok(Err(e)) => {
+                    // an OS-level refusal of a mapping flag is inconclusive, not a violation
+                    let msg = format!("{:#}", e);
+                    if e.downcast_ref::<deser::Error>().is_none() && loader != Loader::LoadFull && loader != Loader::LoadMem && flags != 0 {
+                        log.classes.push("os-refused-flags".into());
+                        continue;
+                    }
+                    return Err(Fail::new("load-error", format!("{}: failed: {}", what, msg)).env(env));
+                }
+                Ok(Ok(o)) => o,
+            };
+            if out.val != *v || out.val != reference.val {
+                return Err(Fail::new("load-mismatch", format!("{}: loaded structure differs from ε-copy of the file bytes: {}", what, out.val.show())).env(env));
+            }
+            if loader == Loader::LoadFull {
+                continue;
+            }
+            if out.borrows.len() != reference.borrows.len() {
+                return Err(Fail::new("load-borrow-count", format!("{}: {} borrows, ε-copy of the bytes has {}", what, out.borrows.len(), reference.borrows.len())).env(env));
+            }
+            if hook {
+                let Some((base, rlen)) = out.region else {
+                    return Err(Fail::new("load-no-region", format!("{}: the result owns no backing region", what)).env(env));
+                };
+                for (i, (b, r)) in out.borrows.iter().zip(&reference.borrows).enumerate() {
+                    if b.len != r.len {
+                        return Err(Fail::new("load-borrow-len", format!("{}: borrow #{} has {} bytes, expected {}", what, i, b.len, r.len)).env(env));
+                    }
+                    if b.ptr < base || b.ptr + b.len > base + rlen {
+                        return Err(Fail::new("load-borrow-outside-region", format!("{}: borrow #{} [{:#x},+{}) lies outside the backing region [{:#x},+{})", what, i, b.ptr, b.len, base, rlen)).env(env));
+                    }
+                    if b.ptr - base != r.ptr - pl.addr() {
+                        return Err(Fail::new("load-borrow-offset", format!("{}: borrow #{} at region offset {}, ε-copy of the bytes has it at {}", what, i, b.ptr - base, r.ptr - pl.addr())).env(env));
+                    }
+                }
+                if base % 64 != 0 {
+                    return Err(Fail::new("region-misaligned", format!("{}: backing region at {:#x} is not aligned to 64", what, base)).env(env));
+                }
+                if out.prefix_is_file != Some(true) {
+                    return Err(Fail::new("region-not-file", format!("{}: the backing region does not start with the file's bytes", what)).env(env));
+                }
+                match loader {
+                    Loader::LoadMem | Loader::LoadMmap => {
+                        if rlen < file.len() || rlen % 16 != 0 {
+                            return Err(Fail::new("region-length", format!("{}: region of {} bytes for a file of {} bytes is not rounded up", what, rlen, file.len())).env(env));
+                        }
+                        if out.tail_zero != Some(true) {
+                            return Err(Fail::new("region-tail-not-zero", format!("{}: bytes after the end of the file in the backing region are not all zero", what)).env(env));
+                        }
+                        if rlen > file.len() {
+                            log.classes.push("has-zero-tail".into());
+                        }
+                    }
+                    Loader::Mmap => {
+                        if rlen != file.len() {
+                            return Err(Fail::new("region-length", format!("{}: mapping of {} bytes for a file of {} bytes", what, rlen, file.len())).env(env));
+                        }
+                    }
+                    Loader::LoadFull => {}
+                }
+            }
+        }
+        std::fs::remove_file(&path).ok();
+        Ok(())
+    });
+}
